@@ -85,7 +85,7 @@ def run(out, tier):
     # 1b. the declarative layer is not vacuous: the mutated specifications must be refuted by TLC
     neg = {}
     for cfg, what in NEG:
-        rn = C.tlc("ParserLifecycle", cfg, workers=4, timeout=3000, heap="4g")
+        rn = C.tlc("ParserLifecycle", cfg, workers=4, timeout=3000, heap="4g", extra=("-noGenerateSpecTE",))
         neg[cfg] = dict(what=what, violated=rn.violated)
         if rn.ok or not rn.violated:
             raise C.InfraError("model failure: %s (%s) is not refuted by TLC" % (cfg, what))
